@@ -773,7 +773,15 @@ class Interp:
         if name in NO_INLINE or name in self.no_inline:
             return None
         callee = None
-        if isinstance(f.value, ast.Name) and f.value.id == 'self':
+        explicit_self = False
+        if name == '__init__' and v.args and isinstance(v.args[0], ast.Name) and v.args[0].id == 'self' \
+                and not (isinstance(f.value, ast.Name) and f.value.id == 'self'):
+            # Base.__init__(self, ...)
+            base = self.model.resolve_name(self.module, f.value)
+            if isinstance(base, Class):
+                callee = base.find('__init__')
+                explicit_self = True
+        elif isinstance(f.value, ast.Name) and f.value.id == 'self':
             callee = self.resolve_self_method(name)
         elif isinstance(f.value, ast.Call) and isinstance(f.value.func, ast.Name) and f.value.func.id == 'super' \
                 and self.cls is not None:
@@ -786,6 +794,8 @@ class Interp:
             return None
         if callee.is_coro and not awaited:
             return None        # a coroutine called but not awaited here: stays a SELFCALL (escape)
+        if explicit_self:
+            v = ast.copy_location(ast.Call(func=v.func, args=v.args[1:], keywords=v.keywords), v)
         return v, callee, awaited
 
     def splice(self, st, call, callee, awaited, cont):
